@@ -92,9 +92,11 @@ class CheckContext:
         return g
 
     # ------------------------------------------------------------ engine R
-    def replay(self, g: Graph, adapter, view, *, actions=None, edge_budget=None, label: str = "") -> ReplayStats:
+    def replay(self, g: Graph, adapter, view, *, actions=None, first_actions=None, edge_budget=None, label: str = "",
+               rebuild_from_history: bool = False) -> ReplayStats:
         st = replay_graph(g, adapter, view, self.findings, self.prop, edge_budget=edge_budget, seed=self.seed,
-                          actions=actions, sample_every=max(1, g.n_edges // 7))
+                          actions=actions, first_actions=first_actions, sample_every=max(1, g.n_edges // 7),
+                          rebuild_from_history=rebuild_from_history or getattr(self, "rebuild_from_history", False))
         self.replayed += st.edges_replayed
         self.traces += st.states_reached   # every reached state is the end of one replayed behaviour
         if st.edges_replayed < st.edges_total:
